@@ -7,42 +7,42 @@ Import ListNotations.
 (* Termination: with fuel max_validation_depth + 1 the model never runs out of fuel - for ANY
    environment (arbitrary cyclic references between shapes), any data graph (cyclic or not),
    any options and any back-out heuristic. The answer is a report or a documented failure. *)
-Theorem C19_total : forall trig o sg g E, errs_in not_oof_exn (validate trig o sg g E).
+Theorem C19_total : forall trig W o sg g E, errs_in not_oof_exn (validate trig W o sg g E).
 Proof. exact validate_total. Qed.
 Print Assumptions C19_total.
 
 (* Loud failure: a nested evaluation of an active shape on some node, entered at or beyond the
    limit, is the 'validation path too deep' failure - never (true, []). *)
-Theorem C19_loud : forall trig o g E fuel ep s foci,
+Theorem C19_loud : forall trig W o g E fuel ep s foci,
   deact s = false -> foci <> [] -> e_max_depth o <= length ep ->
-  vshape trig fuel o g E false ep s foci = Err TooDeep.
+  vshape trig W fuel o g E false ep s foci = Err TooDeep.
 Proof. exact vshape_too_deep. Qed.
 Print Assumptions C19_loud.
 
 (* Exactness: an answer obtained under some depth limit is the answer under every larger limit
    (and more fuel): the limit never silently truncates nesting into a different report. *)
-Theorem C19_exact : forall trig o o' g E, e_abort o = e_abort o' -> e_allowed o = e_allowed o' ->
+Theorem C19_exact : forall trig W o o' g E, e_abort o = e_abort o' -> e_allowed o = e_allowed o' ->
   e_max_depth o <= e_max_depth o' ->
   forall fuel fuel' top ep s foci r, fuel <= fuel' ->
-  vshape trig fuel o g E top ep s foci = Ok r -> vshape trig fuel' o' g E top ep s foci = Ok r.
-Proof. intros trig o o' g E Ha Hw Hd fuel fuel' top ep s foci r Hf. exact (vshape_mono trig o o' g E Ha Hw Hd fuel fuel' top ep s foci Hf r). Qed.
+  vshape trig W fuel o g E top ep s foci = Ok r -> vshape trig W fuel' o' g E top ep s foci = Ok r.
+Proof. intros trig W o o' g E Ha Hw Hd fuel fuel' top ep s foci r Hf. exact (vshape_mono trig W o o' g E Ha Hw Hd fuel fuel' top ep s foci Hf r). Qed.
 Print Assumptions C19_exact.
 
 (* Below the limit: a non-recursive shapes graph (references strictly decrease a rank) whose
    nesting depth under the validated shape is below max_validation_depth never fails with
    'too deep'. *)
-Theorem C19_below : forall trig o sg g E rank s explicit,
+Theorem C19_below : forall trig W o sg g E rank s explicit,
   ranked E rank -> In s E -> rank (sid s) < max_depth o ->
-  errs_in not_too_deep (validate_top trig o sg g E s explicit).
+  errs_in not_too_deep (validate_top trig W o sg g E s explicit).
 Proof. exact validate_top_below_limit. Qed.
 Print Assumptions C19_below.
 
 (* The recursion back-out heuristic never fires on a non-recursive shapes graph: the report is
    the one computed with the heuristic switched off. *)
-Theorem C19_no_backout : forall o g E rank, ranked E rank ->
+Theorem C19_no_backout : forall W o g E rank, ranked E rank ->
   forall fuel top ep s foci, In s E ->
   (forall e, In e ep -> rank (sid s) < rank (fst e)) ->
-  vshape recursion_triggers fuel o g E top ep s foci = vshape no_triggers fuel o g E top ep s foci.
+  vshape recursion_triggers W fuel o g E top ep s foci = vshape no_triggers W fuel o g E top ep s foci.
 Proof. exact vshape_no_backout. Qed.
 Print Assumptions C19_no_backout.
 
@@ -53,5 +53,5 @@ Definition R : shape := {| sid := IRI 100; spath := Some (PPred 50); deact := fa
    scomps := [CNot [IRI 100]] |}.
 Definition cyc : graph := [(IRI 1, IRI 50, IRI 2); (IRI 2, IRI 50, IRI 1)].
 Definition o2 := {| abort := false; allow_infos := false; allow_warnings := false; max_depth := 2; focus_filter := [] |}.
-Example C19_nonvacuous : validate_impl o2 [] cyc [R] = Err TooDeep.
+Example C19_nonvacuous : validate_impl0 o2 [] cyc [R] = Err TooDeep.
 Proof. vm_compute. reflexivity. Qed.
